@@ -4,7 +4,7 @@ package main
 // client limiter (udp, tcp, gnet) and of the per-connection concurrency limit (tcp, gnet) — obey the OPT rule
 // too: exactly one OPT (the proxy's size, no options) iff the query had one.
 //
-// case : kind=<udp|udpmr|tcp|gnet> why=<limiter|overload> n=<queries> seed=<s>
+// case : kind=<udp|udpmr|tcp|gnet> why=<limiter|overload> n=<queries> [nq=<questions per query>] seed=<s>
 // out  : refused=<some|none> optok=<1|0> ## refused=<k> answered=<k> bad=<detail>
 
 import (
@@ -49,7 +49,24 @@ func runRefusedOpt(cs string) string {
 		name := wireLabels([]byte(fmt.Sprintf("%s%d", first, i)), []byte("refopt"))
 		id := uint16(1000 + i)
 		qs = append(qs, sent{id, withOpt})
-		frames = append(frames, buildQuery(id, name, 1, withOpt, 1232))
+		qb := buildQuery(id, name, 1, withOpt, 1232)
+		if nq := atoi(m["nq"]); nq > 1 { // nq questions with incompressible names (an unsupported query, about 25 octets each)
+			mq, err := dnsmsg.UnpackMsg(qb)
+			if err == nil {
+				for j := 1; j < nq; j++ {
+					qq := dnsmsg.NewQuestion()
+					qq.Name = nameBuf(wireLabels([]byte(fmt.Sprintf("q%dx%dabcdefghij", i, j)), []byte(fmt.Sprintf("z%d", j))))
+					qq.Type, qq.Class = 1, 1
+					mq.Questions = append(mq.Questions, qq)
+				}
+				b := make([]byte, mq.Len())
+				if k, err := mq.Pack(b, false, 0); err == nil {
+					qb = b[:k]
+				}
+				dnsmsg.ReleaseMsg(mq)
+			}
+		}
+		frames = append(frames, qb)
 	}
 	resps := map[uint16][]byte{}
 	switch kind {
@@ -105,6 +122,15 @@ func runRefusedOpt(cs string) string {
 		if !ok {
 			continue
 		}
+		if kind == "udp" || kind == "udpmr" { // C09: a UDP response fits max(512, advertised size) whoever produced it
+			lim := 512
+			if q.withOpt {
+				lim = 1232
+			}
+			if len(b) > lim {
+				bad += fmt.Sprintf("id%d:size%d>%d,", q.id, len(b), lim)
+			}
+		}
 		rm, err := dnsmsg.UnpackMsg(b)
 		if err != nil {
 			bad += fmt.Sprintf("undecodable:%d,", q.id)
@@ -131,7 +157,13 @@ func runRefusedOpt(cs string) string {
 		if q.withOpt {
 			want = 1
 		}
-		if nopt != want || !okOpt {
+		// "exactly one OPT iff the query had one" is stated for supported queries; a query with several questions is
+		// not one (NOTIMP): there only "never an OPT unless the query had one"
+		if atoi(m["nq"]) > 1 {
+			if nopt > want || !okOpt {
+				bad += fmt.Sprintf("id%d:rcode%d:opt%d/%d,", q.id, rm.Header.RCode, nopt, want)
+			}
+		} else if nopt != want || !okOpt {
 			bad += fmt.Sprintf("id%d:rcode%d:opt%d/%d,", q.id, rm.Header.RCode, nopt, want)
 		}
 		dnsmsg.ReleaseMsg(rm)
@@ -154,6 +186,9 @@ func genRefusedOpt(r *rand.Rand, thorough bool, emit func(c, cat string)) {
 	for i := 0; i < rounds; i++ {
 		for _, kind := range []string{"udp", "udpmr", "tcp", "gnet"} { // udpmr: udp on the wildcard address with multi_routes
 			emit(fmt.Sprintf("kind=%s why=limiter n=12 seed=%d", kind, r.Intn(1<<30)), kind+"-limiter")
+			if kind == "udp" { // refused (and NOTIMP) answers to a query with many questions stay within the UDP limit
+				emit(fmt.Sprintf("kind=%s why=limiter n=12 nq=%d seed=%d", kind, 30+r.Intn(30), r.Intn(1<<30)), kind+"-limiter-manyq")
+			}
 			if kind != "udp" && kind != "udpmr" {
 				emit(fmt.Sprintf("kind=%s why=overload n=8 seed=%d", kind, r.Intn(1<<30)), kind+"-overload")
 			}
